@@ -39,8 +39,10 @@ type c01Sess struct {
 	disk  [3]string
 	buf   [3]string
 	open  [3]bool
-	edits [3]int // how many times the document was edited in the editor
-	incOn bool   // main currently includes inc
+	edits [3]int   // how many times the document was edited in the editor
+	ver   [3]int32 // document version of the current editing session (restarts at 1 with every didOpen)
+	incOn bool     // main currently includes inc
+	hold  bool     // analyses started from now on stay pending
 }
 
 var c01SessNames = [3]string{"main.journal", "incl.journal", "leaf.journal"}
@@ -93,6 +95,10 @@ func (w *c01Sess) start(ws bool) {
 }
 
 func (w *c01Sess) analyse(i int) {
+	if w.hold {
+		// the background analysis this notification started has not run yet
+		return
+	}
 	if zzverif.Engine() {
 		c01Settle()
 		return
@@ -102,17 +108,19 @@ func (w *c01Sess) analyse(i int) {
 
 func (w *c01Sess) didOpen(i int, text string) {
 	w.buf[i], w.open[i] = text, true
+	w.ver[i] = 1
 	zzNotify(w.s, func() {
-		_ = w.s.DidOpen(w.ctx, &protocol.DidOpenTextDocumentParams{TextDocument: protocol.TextDocumentItem{URI: w.uri(i), Text: text}})
+		_ = w.s.DidOpen(w.ctx, &protocol.DidOpenTextDocumentParams{TextDocument: protocol.TextDocumentItem{URI: w.uri(i), Text: text, Version: 1}})
 	})
 	w.analyse(i)
 }
 
 func (w *c01Sess) didChange(i int, text string) {
 	w.buf[i] = text
+	w.ver[i]++
 	zzNotify(w.s, func() {
 		_ = w.s.DidChange(w.ctx, &protocol.DidChangeTextDocumentParams{
-			TextDocument:   protocol.VersionedTextDocumentIdentifier{TextDocumentIdentifier: protocol.TextDocumentIdentifier{URI: w.uri(i)}},
+			TextDocument:   protocol.VersionedTextDocumentIdentifier{TextDocumentIdentifier: protocol.TextDocumentIdentifier{URI: w.uri(i)}, Version: w.ver[i]},
 			ContentChanges: []protocol.TextDocumentContentChangeEvent{{Text: text}},
 		})
 	})
@@ -208,7 +216,7 @@ var c01SessRequests = []int{0, 1, 2, 3, 4, 5, 6, 7, 8, 10, 11, 12}
 
 // c01RunSession: the disk, a server, main.journal open, `steps` operations; with `chatty` the
 // editor asks a round of every request after each operation.
-func c01RunSession(steps int) (w *c01Sess, ws bool) {
+func c01RunSession(steps int) (w *c01Sess, ws bool, settled bool) {
 	w = &c01Sess{root: zzverif.Root(), incOn: true}
 	ws = zzverif.Choice("ws", 2) == 1
 	for i := 0; i < 3; i++ {
@@ -217,31 +225,37 @@ func c01RunSession(steps int) (w *c01Sess, ws bool) {
 	}
 	w.start(ws)
 	w.didOpen(0, w.disk[0])
+	// the editing session is under way: two changes (typed and taken back) have been sent, so the
+	// document version is 3 when the operations start
+	w.didChange(0, w.disk[0]+"; x\n")
+	w.didChange(0, w.disk[0])
 	chatty := zzverif.Choice("chatty", 2) == 1
 	if chatty {
 		w.askAll()
 	}
+	// how the session ends: 1 settled - every open document has been analysed on its current text
+	// after the last change of any document (what a quiet editor converges to); 0 not settled -
+	// each document was analysed after its own changes only; 2 pending - in addition the analysis
+	// started by the LAST operation has not run yet when the request arrives
+	end := zzverif.Choice("settle", 3)
 	for st := 0; st < steps; st++ {
+		w.hold = end == 2 && st == steps-1
 		w.apply(zzverif.Choice("op"+zzverif.Itoa(st), c01NOps))
-		if chatty {
+		if chatty && !w.hold {
 			w.askAll()
 		}
 	}
-	return w, ws
-}
-
-func verifC01Session(steps int, requests []int) {
-	w, ws := c01RunSession(steps)
-	// settle: every open document has been analysed on its current text after the last change
-	// of any document (what a quiet editor session converges to)
-	// or not: the request then arrives when the other documents have been analysed after their
-	// own changes only (the requesting document's last analysis predates an edit elsewhere)
-	settled := zzverif.Choice("settle", 2) == 1
-	if settled {
+	w.hold = false
+	if end == 1 {
 		for i := 0; i < 2; i++ {
 			w.reanalyse(i)
 		}
 	}
+	return w, ws, end == 1
+}
+
+func verifC01Session(steps int, requests []int) {
+	w, ws, settled := c01RunSession(steps)
 	req := requests[zzverif.Choice("request", len(requests))]
 	from := 0
 	if w.open[1] && zzverif.Choice("from", 2) == 1 {
